@@ -878,6 +878,16 @@ def answer (line : String) : String :=
     | "serto" => match arg 0 with
       | some v => ansSerTo v
       | none => "bad"
+    | "sernhr" => match arg 0 with
+      | some v =>
+        match LangId.fromBytes v with
+        | .ok x =>
+          match Serde.serialize x with
+          | .str s => s!"ok kind=str val={esc s} rt={b01 (Serde.deserialize (.str s) == .ok x)}"
+          | _ => "ok kind=other val= rt=0"
+        | .err e => errCode e
+        | .panic => "panic"
+      | none => "bad"
     | "serfrom" => match arg 0 with
       | some v => ansSerFrom v
       | none => "bad"
